@@ -73,9 +73,9 @@ class C01(Prop):
 
     def layers(self, tier, seed):
         self.TIER = tier
-        adv = ["natural@mixed", "natural@merged", "natural@reserved", "1@merged", "2@mixed"]
+        adv = ["natural@mixed", "natural@merged", "natural@reserved", "1@merged", "2@mixed", "natural@quoted", "1@quoted"]
         if tier == "quick":
-            adv = ["natural@mixed", "natural@merged", "1@reserved"]
+            adv = ["natural@mixed", "natural@merged", "1@reserved", "natural@quoted"]
             return [Layer("FA(2,2,<=12)", lambda: G.fa_cases(2, 2, 0, 12), rep=G.is_rep),
                     Layer("FA(3,2,<=3)", lambda: G.fa_cases(3, 2, 0, 3), rep=G.is_rep),
                     Layer("cycle DFAs n=5 (partial b, every 21st)", lambda: cycle5(21), policies=["natural@str", "1@str"]),
@@ -126,11 +126,11 @@ class C01(Prop):
         scheme = ctx.variant or "int"
         rnfa = O.ref_from_case(case, scheme)
         kind = O.case_kind(case)
-        builds = [("enfa", "add"), ("enfa", "ctor"), ("enfa", "ctor_tf"), ("enfa", "ctor_tf_only"), ("enfa", "ctor_eps")]
+        builds = [("enfa", "add"), ("enfa", "ctor"), ("enfa", "ctor_tf"), ("enfa", "ctor_tf_only"), ("enfa", "ctor_tf_partial"), ("enfa", "ctor_eps")]
         if kind in ("nfa", "dfa"):
             builds.append(("nfa", "add"))
         if kind == "dfa":
-            builds += [("dfa", "add"), ("dfa", "ctor"), ("dfa", "ctor_tf_only")]
+            builds += [("dfa", "add"), ("dfa", "ctor"), ("dfa", "ctor_tf_only"), ("dfa", "ctor_tf_partial")]
         if kind == "enfa":
             # the epsilon-free classes either refuse the 'epsilon' spelling (documented exception) or -- if they
             # let it through -- the automaton they hold must still answer per the property
